@@ -50,8 +50,7 @@ def tasks(tier):
             for how in ("nd", "list", "ma", "ma2", "mai"):
                 if how in ("ma", "ma2", "mai") and not spec["none_ok"]:
                     continue
-                if how == "mai" and None in (spec["cfgs"][ci].get("valid_span") or ()):
-                    continue  # integer data with a None bound: not judged (numpy cannot build the span array)
+                pass  # (integer data with a None bound is judged since /repo fix of valid_range_test)
                 if how == "list" and not spec["none_ok"]:
                     sig = "nd"
                 else:
